@@ -15,8 +15,9 @@ from .c10 import generated_variants
 from .siblings import Path as SimPath
 from .siblings import PathSim, _class_names, _strip, enum_builder_parity, enum_merge_parity, inline_tail_calls
 
-LEVEL = ("structural clauses: semantic facts of each enum builder and of merge_properties per enum class (private helpers written out in "
-         "place wherever they are called, loops over constant tables unrolled, record fields and lambdas held in them followed; the merge "
+LEVEL = ("structural clauses: semantic facts of each enum builder and of merge_properties per enum class (private helpers - and package functions that only the builders call - written out in "
+         "place wherever they are called, loops over constant tables unrolled, record fields and lambdas held in them followed, a result "
+         "that travels as a NamedTuple followed through isinstance and unpacking; the merge "
          "is simulated for every property class of the package on the other side), checked by simulating "
          "the control flow under scenarios (null extraction by identity, only-null -> NoneProperty, single supported value type, null "
          "member -> nullable union, members from the null-free list, a taken class name reused only by the same class with the same "
@@ -28,7 +29,8 @@ LEVEL = ("structural clauses: semantic facts of each enum builder and of merge_p
          "assignment of the template conditions, macro calls followed and `set` variables read as their definitions - raises whenever a "
          "present value differs from the constant), encode is .value / identity in every encoder macro (same reading), str(<member>) only together with a __str__ of the generated class that returns the "
          "value; member values reach the class through a string context with a single escaping (label analysis of the "
-         "emission site), Literal members through repr only; nobody adds to the declared values (every write to the enum field of a "
+         "emission site; each class template must show such an emission), Literal members through repr only; a closed member of a union "
+         "keeps its rejection (the generated union decoder does not discard the member's exception and then return the undecoded value); nobody adds to the declared values (every write to the enum field of a "
          "schema stores None or a selection of the old list).")
 
 
